@@ -79,6 +79,11 @@ pub fn stream_unc_units(k: usize) -> Vec<u8> {
     v
 }
 
+/// The preset dictionary of the `W2P` scenarios.
+pub fn preset_text() -> Vec<u8> {
+    text_input(300, 5)
+}
+
 pub fn text_input(n: usize, salt: usize) -> Vec<u8> {
     let mut v = gen::build(&[Seg::C(n + salt)], 0);
     v.drain(..salt);
@@ -340,6 +345,8 @@ pub enum Kind {
     RL,
     /// LZMA2WriterMT; ops over the input
     W2,
+    /// LZMA2WriterMT whose options carry the preset dictionary `preset_text()`
+    W2P,
     /// LZIPWriterMT
     WL,
     /// work queue alone: pushers/closer/stealers
@@ -385,6 +392,7 @@ impl Scenario {
             Kind::R2 { preset } => format!("R2{}", if preset.is_some() { "+preset" } else { "" }),
             Kind::RL => "RL".into(),
             Kind::W2 => "W2".into(),
+            Kind::W2P => "W2+preset".into(),
             Kind::WL => "WL".into(),
             Kind::Q { items, stealers, close } => format!("Q{items}i{stealers}s{}", if *close { "c" } else { "" }),
         };
@@ -440,6 +448,13 @@ impl Scenario {
                 Kind::W2 => {
                     obs_phase("new");
                     let w = LZMA2WriterMT::new(Sink::new(s.fail_at), lzma2_opts(UNIT as u64), s.workers).unwrap();
+                    run_writer(&s, w, |w| w.finish().map(|s| s.out));
+                }
+                Kind::W2P => {
+                    obs_phase("new");
+                    let mut o = lzma2_opts(UNIT as u64);
+                    o.lzma_options.preset_dict = Some(preset_text());
+                    let w = LZMA2WriterMT::new(Sink::new(s.fail_at), o, s.workers).unwrap();
                     run_writer(&s, w, |w| w.finish().map(|s| s.out));
                 }
                 Kind::WL => {
